@@ -26,9 +26,11 @@ before it (or free Verus text when outside an @extract block).
     @beforeloop|@afterloop|@loopstart|@loopend ORD / payload   around / inside the ORD-th loop
     @rule R1 loop ORD iter NAME          for-desugaring over an external iterator (@loopinit ORD payload goes between `let mut NAME = ..;` and `loop`)
     @rule R2                             `.map(Self)`/`.map(Ctor)` eta-expansion (payload: closure text per match)
+    @rule R2c / payload `|x| body := |x: T| -> (r: U) ensures .. { body }`   closure annotation (body kept verbatim)
     @rule R3 loop ORD index NAME         iter_mut loop -> index loop
     @rule R10 [NAME]                     `mut self` parameter -> `let mut NAME = self;` + renaming in the body
     @rule pub                            item made pub                                 [R0]
+    @rule R17 NAME / payload             tail expression E -> `let NAME = E; <payload> NAME`
     @rule R14 NAME                       NAME.len() on a &str -> str_len(NAME) (assumed wrapper)
     @rule R12                            debug_assert_eq!(a, b) -> debug_assert!((a) == (b))
     @rule ascribe "let x" "T"            type ascription added to a let                [R11]
@@ -223,6 +225,28 @@ class FnInfo:
                     continue
                 res.append((k + 1, nxt.start))
         return res
+
+    def enclosing_stmt_start(self, pos):
+        """Offset of the start of the innermost statement (after `;`, `{` or `}` and not inside parentheses / brackets) that contains pos."""
+        toks = self.toks
+        stack = []          # open bracket tokens
+        best = toks[self.body_open_idx + 1].start
+        cand = {}           # depth -> last statement start seen at that brace depth
+        for k in range(self.body_open_idx, self.body_close_idx):
+            t = toks[k]
+            if t.start >= pos:
+                break
+            if t.kind == "punct" and t.text in ("(", "[", "{"):
+                stack.append(t.text)
+            elif t.kind == "punct" and t.text in (")", "]", "}"):
+                if stack: stack.pop()
+            if t.kind == "punct" and t.text in (";", "{", "}") and not any(b in ("(", "[") for b in stack):
+                cand[len(stack)] = toks[k + 1].start
+                for dd in [x for x in cand if x > len(stack)]:
+                    del cand[dd]
+        if cand:
+            best = cand[max(cand)]
+        return best
 
     def stmt_end(self, start_idx):
         """Index of the token ending the statement that starts at token index start_idx:
@@ -615,6 +639,66 @@ class Extractor:
             if n == 0:
                 raise GenError("rule R12 no longer matches in %s" % cur_label)
             self.count("R12-assert-eq", n)
+            return
+        if rule == "R2c":
+            # closure annotation: payload lines `SOURCE-CLOSURE := ANNOTATED-CLOSURE`; the annotated closure must end with
+            # `{ BODY }` where BODY is textually the body of the source closure (only parameter types, a named result and
+            # requires/ensures clauses are added - the eta/annotation rule R2 for closures)
+            lo, hi = cur.item.start, cur.item.end
+            for w in [l for l in d.payload if l.strip()]:
+                orig, _, ann = w.strip().partition(" := ")
+                # the closure is matched token-wise (layout of the source does not matter)
+                rx = re.compile(r"\s*".join(re.escape(t.text) for t in rl.code_tokens(rl.tokenize(orig))))
+                ms = list(rx.finditer(src, lo, hi))
+                if len(ms) != 1:
+                    raise GenError("rule R2c: closure %r must occur exactly once in %s (found %d)" % (orig, cur_label, len(ms)))
+                pos = ms[0].start()
+                orig = src[pos:ms[0].end()]
+                body = orig.split("|", 2)[2].strip()
+                at = rl.code_tokens(rl.tokenize(ann))
+                abr = rl.match_brackets(at)
+                if at[-1].text != "}":
+                    raise GenError("rule R2c: annotated closure must end with `{ body }` in %s" % cur_label)
+                ob = abr[len(at) - 1]
+                inner = at[ob + 1:len(at) - 1]
+                # ghost `proof { .. }` blocks inside the annotated body are allowed; everything else must be the source body
+                kept, q = [], 0
+                ibr = rl.match_brackets(inner)
+                while q < len(inner):
+                    if inner[q].text == "proof" and q + 1 < len(inner) and inner[q + 1].text == "{":
+                        q = ibr[q + 1] + 1
+                        continue
+                    kept.append(inner[q].text); q += 1
+                if kept != [t.text for t in rl.code_tokens(rl.tokenize(body))]:
+                    raise GenError("rule R2c: annotated closure does not keep the body %r in %s" % (body, cur_label))
+                mh = re.match(r"^([a-z_][a-z0-9_]*)\s*=\s*(\|.*)$", ann, re.S)
+                if mh:
+                    # hoisting form `NAME = |..| ..`: `let NAME = <closure>;` is placed before the enclosing statement and the
+                    # closure is replaced by NAME (closure creation has no side effect, evaluation order is unchanged)
+                    name, ann = mh.group(1), mh.group(2)
+                    st = cur.enclosing_stmt_start(pos)
+                    add(st, st, "let %s = %s;\n" % (name, ann), ("rule-ins", "R2c-closure-annotation", cur_label, d.line))
+                    add(pos, pos + len(orig), name, ("rule", "R2c-closure-annotation", cur_label, d.line))
+                else:
+                    add(pos, pos + len(orig), ann, ("rule", "R2c-closure-annotation", cur_label, d.line))
+                self.count("R2c-closure-annotation")
+            return
+        if rule == "R17":
+            # tail expression `E` of the fn body  =>  `let NAME = E; <ghost payload> NAME`  (so that ghost code can follow the last call)
+            name = args[1]
+            toks = cur.toks
+            depth, last_semi = 0, None
+            for q in range(cur.body_open_idx + 1, cur.body_close_idx):
+                t = toks[q]
+                if t.kind == "punct" and t.text in ("(", "[", "{"): depth += 1
+                elif t.kind == "punct" and t.text in (")", "]", "}"): depth -= 1
+                elif t.kind == "punct" and t.text == ";" and depth == 0: last_semi = q
+            if last_semi is None or last_semi + 1 >= cur.body_close_idx:
+                raise GenError("rule R17: %s has no tail expression after a statement" % cur_label)
+            st = toks[last_semi + 1].start
+            add(st, st, "let %s = " % name, ("rule-ins", "R17-name-tail", cur_label, d.line))
+            add(cur.body_close, cur.body_close, ";\n" + d.text() + "\n" + name + "\n", ("rule-ins", "R17-name-tail", cur_label, d.line))
+            self.count("R17-name-tail")
             return
         if rule == "R14":
             # `NAME.len()` on a `&str` local NAME  =>  `str_len(NAME)`: vstd gives `str::len` no usable postcondition and
